@@ -1,0 +1,58 @@
+//go:build verif
+
+package evaluator
+
+// Contracts for the deductive verifier in /verif (comment-only; compiled only with -tags verif).
+//
+// ---- C11: indexing and slicing ------------------------------------------------------------
+//@ props C11
+//
+// clampIdx: CPython's PySlice_AdjustIndices for one bound of a sequence of length n:
+// negative bounds count from the end; out-of-range bounds are clamped to the ends of the sequence in
+// the direction of step ([0, n] for step > 0, [-1, n-1] for step < 0).
+//@ spec fun clampIdx(i int, n int, step int) int = i < 0 ? (i + n < 0 ? (step < 0 ? 0 - 1 : 0) : i + n) : (i >= n ? (step < 0 ? n - 1 : n) : i)
+//@ spec fun sliceStart(has bool, s int, n int, step int) int = has ? clampIdx(s, n, step) : (step > 0 ? 0 : n - 1)
+//@ spec fun sliceStop(has bool, e int, n int, step int) int = has ? clampIdx(e, n, step) : (step > 0 ? n : 0 - 1)
+//
+//@ func evaluator.arrIndex(index, arr) res
+//@   requires arr != nil
+//@   let n := len(arr.Elems)
+//@   track   index, n
+//@   ensures 0 <= index && index < n ==> res == arr.Elems[index]
+//@   ensures 0 - n <= index && index < 0 ==> res == arr.Elems[index + n]
+//@   ensures index >= n || index < 0 - n ==> res == object.BuiltInNil
+//@   assigns nothing
+//
+//@ func evaluator.strIndex(index, runes) res
+//@   let n := len(runes)
+//@   track   index, n
+//@   ensures 0 <= index && index < n ==> isT(res, *object.PanStr) && as(res, *object.PanStr).Value == rune2str(runes[index])
+//@   ensures 0 - n <= index && index < 0 ==> isT(res, *object.PanStr) && as(res, *object.PanStr).Value == rune2str(runes[index + n])
+//@   ensures index >= n || index < 0 - n ==> res == object.BuiltInNil
+//@   assigns nothing
+//
+//@ func evaluator.fixRange(r, length, step) start, stop
+//@   requires r != nil && 0 <= length && length <= MAXLEN && step != 0
+//@   let hasS := isT(r.Start, *object.PanInt)
+//@   let s := as(r.Start, *object.PanInt).Value
+//@   let hasE := isT(r.Stop, *object.PanInt)
+//@   let e := as(r.Stop, *object.PanInt).Value
+//@   track   length, step, hasS, s, hasE, e
+//@   ensures start == sliceStart(hasS, s, length, step)
+//@   ensures stop == sliceStop(hasE, e, length, step)
+//@   assigns nothing
+//
+// valRange: every position handed to valIndex lies inside the sequence (so every returned element is
+// an element of the sequence and nothing is invented), for every start/stop/step.
+//@ func evaluator.valRange(r, size, valIndex) res
+//@   requires r != nil && r.Start != nil && r.Stop != nil && r.Step != nil && 0 <= size && size <= MAXLEN
+//@   requires isVal(r.Start) && isVal(r.Stop) && isVal(r.Step) && valIndex != nil
+//@   param    valIndex: callpre 0 <= arg1 && arg1 < size; assigns nothing
+//@   track   size
+//@   ensures isT(r.Step, *object.PanInt) && as(r.Step, *object.PanInt).Value == 0 && (isT(r.Start, *object.PanInt) || isT(r.Start, *object.PanNil)) && (isT(r.Stop, *object.PanInt) || isT(r.Stop, *object.PanNil)) ==> isT(res, *object.PanErr) && as(res, *object.PanErr).ErrKind == object.ValueErr
+//@   ensures res != nil
+//@   assigns nothing
+//@   loop 1 invariant fresh(elems)
+//@   loop 1 invariant step != 0 && 0 - size - 1 <= step && step <= size + 1
+//@   loop 1 invariant step > 0 ==> 0 <= i && i <= size + step && stop <= size
+//@   loop 1 invariant step < 0 ==> i <= size - 1 && i >= step - 1 && stop >= 0 - 1
